@@ -14,7 +14,7 @@ func init() {
 		Decided: "every instruction in package gojq that writes into a []any / map[string]any (element store, map update, delete, append, copy, clear, maps.Copy, sorts) has a destination that is owned by the running reduction: fresh in the function, guarded by allocator.allocated(x) on a dominating edge, a parameter whose every call site passes an owned value, an element of a fresh container holding only owned values, or VM-private storage (R-C05-own); " +
 			"the accumulator of every opappend is initialised from an empty literal so append never writes in place into shared storage (R-C05-appendfresh); every range over a map in gojq and cli/encoder.go has an order-insensitive body shape (R-C05-maporder); " +
 			"each run gets a fresh env and Code carries no run state (R-C05-envfresh).",
-		NotCovered: "that outputs are equal across runs; read-only structure sharing (legal by design); user-supplied iterators and callbacks; GC address reuse in the uintptr-keyed allocator; aliasing that flows through bytecode rather than Go data flow (D7).",
+		NotCovered: "that outputs are equal across runs; read-only structure sharing (legal by design); user-supplied iterators and callbacks; GC address reuse in the uintptr-keyed allocator; aliasing that flows through bytecode rather than Go data flow (its two landing places are checked under C02: R-C02-release, R-C02-inplaceslice).",
 	})
 	reg(&Rule{ID: "R-C05-own", Props: []string{"C05", "C06", "C02", "C03"}, Floor: 60,
 		Doc: "every write into a JSON container in package gojq targets a container owned by the running reduction",
